@@ -12,6 +12,7 @@ mod common;
 mod geom;
 mod plan;
 mod proto;
+mod fault;
 mod sched;
 mod serde_fam;
 mod history;
@@ -37,6 +38,7 @@ fn run_case(family: &str, args: &[u128]) -> Vec<u128> {
         "history" => history::history(args),
         "serde" => serde_fam::serde_case(args),
         "sched" => sched::sched(args),
+        "fault" => fault::fault(args),
         _ => panic!("unknown family {family}"),
     }
 }
